@@ -178,6 +178,24 @@ func (c *oblCtx) nullableVar(id *ast.Ident) (string, bool) {
 	if v.Parent() == nil || v.Parent() == v.Pkg().Scope() {
 		return "", false
 	}
+	// bound by a comma-ok type assertion: nil (the zero value) when the assertion fails
+	commaOK := false
+	ast.Inspect(c.fn, func(n ast.Node) bool {
+		as, ok := n.(*ast.AssignStmt)
+		if !ok || len(as.Lhs) != 2 || len(as.Rhs) != 1 {
+			return true
+		}
+		if _, isTA := ast.Unparen(as.Rhs[0]).(*ast.TypeAssertExpr); !isTA {
+			return true
+		}
+		if l, ok := as.Lhs[0].(*ast.Ident); ok && objOf(c.info(), l) == obj {
+			commaOK = true
+		}
+		return true
+	})
+	if commaOK {
+		return "bound by a comma-ok type assertion, nil when the assertion fails", true
+	}
 	for _, d := range c.defsOf(obj) {
 		if d == nil {
 			if c.definitelyAssignedAfterDecl(obj) {
@@ -426,9 +444,7 @@ func (c *oblCtx) walkStmt(s ast.Stmt) {
 					c.facts = append(c.facts, fact{tyExpr: bind, tySet: set}, fact{alias: bind, aliasOf: es(x)})
 				}
 			}
-			for _, st := range cc.Body {
-				c.walkStmt(st)
-			}
+			c.walkStmts(cc.Body)
 			c.facts = saved
 		}
 		c.facts = saved0
@@ -602,6 +618,15 @@ func (c *oblCtx) walkStmts(list []ast.Stmt) {
 							c.facts = append(append([]fact{}, c.facts...), fact{nonNil: es(be.X)})
 						}
 					}
+				}
+			}
+		}
+		if is, ok := st.(*ast.IfStmt); ok && is.Else == nil && !terminates(is.Body) {
+			// `if !ok { v = other(); if v == nil { return } }`: v is non-nil after the if when it is both on the
+			// path that skips the body and at the end of the body
+			for _, f := range append(c.condFacts(is.Cond, false), c.okFacts(is.Init, is.Cond, false)...) {
+				if f.nonNil != "" && nonNilAtEnd(is.Body.List, f.nonNil) {
+					c.facts = append(append([]fact{}, c.facts...), fact{nonNil: f.nonNil})
 				}
 			}
 		}
@@ -781,6 +806,53 @@ func (c *oblCtx) absentRepair(is *ast.IfStmt) string {
 		return ""
 	}
 	return vID.Name
+}
+
+// nonNilAtEnd: scanning the top-level statements of a block, x is assigned and then established non-nil (a fresh
+// value, or `if x == nil { <terminates> }`), and not re-assigned afterwards.
+func nonNilAtEnd(list []ast.Stmt, x string) bool {
+	state := false
+	assigned := false
+	for _, st := range list {
+		switch s := st.(type) {
+		case *ast.AssignStmt:
+			for i, l := range s.Lhs {
+				if es(l) == x {
+					assigned = true
+					state = len(s.Rhs) == len(s.Lhs) && isFreshValue(s.Rhs[i])
+				}
+			}
+		case *ast.IfStmt:
+			if be, ok := ast.Unparen(s.Cond).(*ast.BinaryExpr); ok && be.Op == token.EQL && es(be.X) == x && es(be.Y) == "nil" && terminates(s.Body) && s.Else == nil {
+				state = true
+				continue
+			}
+			// any other statement that may assign x resets the knowledge
+			if assignsTo(s, x) {
+				state = false
+			}
+		default:
+			if assignsTo(st, x) {
+				state = false
+			}
+		}
+	}
+	return assigned && state
+}
+
+func assignsTo(n ast.Node, x string) bool {
+	found := false
+	ast.Inspect(n, func(m ast.Node) bool {
+		if as, ok := m.(*ast.AssignStmt); ok {
+			for _, l := range as.Lhs {
+				if es(l) == x {
+					found = true
+				}
+			}
+		}
+		return true
+	})
+	return found
 }
 
 func isFreshValue(e ast.Expr) bool {
